@@ -1,5 +1,6 @@
 import LivesimVerif.Lemmas.Receiver
 import LivesimVerif.Lemmas.RecvInv
+import LivesimVerif.Model.Renum
 /-!
 # C17 — Ingest receiver: stored media and timeline MPD agree for any arrival order
 
@@ -382,3 +383,92 @@ example : expandS (buildS [⟨5, 100, 10, false⟩, ⟨6, 110, 10, false⟩, ⟨
     = [(100, 10), (110, 10), (121, 9), (130, 10)] := by decide
 
 end Recv
+
+/-!
+## Renumbered channels — the stored stream satisfies `number = time / duration` again
+
+Model `Model/Renum.lean`, tied to the receiver by the op `renum` (a real receiver is fed the uploads and the stored files
+are listed with their decode times).
+-/
+namespace Renum
+
+/-- the index the master's first segment gets: its time rounded *up* to the segment grid -/
+def firstIdx (dts0 dur : Nat) : Nat := dts0 / dur + (if dts0 % dur ≠ 0 then 1 else 0)
+
+theorem start_dur (seq0 dts0 dur mTS : Nat) : (start seq0 dts0 dur mTS).dur = dur ∧ (start seq0 dts0 dur mTS).mTS = mTS := by
+  unfold start; simp only []; split <;> simp
+
+/-- **The master track lands on the grid**: after the start, the master's `j`-th segment (decode time `dts0 + j·dur`) is
+stored with decode time `(firstIdx + j)·dur`. -/
+theorem c17_master_time (seq0 dts0 dur mTS j : Nat) (hd : 0 < dur) (hT : 0 < mTS) :
+    (start seq0 dts0 dur mTS).outTime (dts0 + j * dur) mTS = (firstIdx dts0 dur + j) * dur := by
+  unfold start firstIdx Start.outTime
+  by_cases ho : dts0 % dur = 0
+  · have hdiv : dts0 = dts0 / dur * dur := by
+      have := Nat.div_add_mod dts0 dur; rw [ho] at this; rw [Nat.mul_comm]; omega
+    simp only [ho, ne_eq, not_true_eq_false, if_false, Nat.add_zero]
+    rw [Nat.add_mul]; omega
+  · simp only [ho, ne_eq, not_false_eq_true, if_true]
+    have hlt : dts0 % dur < dur := Nat.mod_lt _ hd
+    have hne : dur - dts0 % dur ≠ 0 := by omega
+    simp only [hne, not_false_eq_true, if_true, not_true_eq_false, if_false]
+    have hsplit := Nat.div_add_mod dts0 dur
+    have : dts0 + j * dur + (dur - dts0 % dur) = (dts0 / dur + 1 + j) * dur := by
+      rw [Nat.add_mul, Nat.add_mul, Nat.one_mul, Nat.mul_comm (dts0 / dur) dur]; omega
+    rw [this, Nat.mul_div_cancel _ hT]
+
+/-- **… and is numbered by its time**: its number is `firstIdx + j − startNr` (in `uint32` arithmetic), so consecutive
+master segments get consecutive numbers and `number + startNr = time / duration` holds for what is stored. -/
+theorem c17_master_number (seq0 dts0 dur mTS j startNr : Nat) (hd : 0 < dur) (hT : 0 < mTS) :
+    (start seq0 dts0 dur mTS).renumber startNr (dts0 + j * dur) mTS =
+      some (((firstIdx dts0 dur + j) % 4294967296 + 4294967296 - startNr % 4294967296) % 4294967296,
+            (firstIdx dts0 dur + j) * dur) := by
+  unfold Start.renumber
+  rw [c17_master_time seq0 dts0 dur mTS j hd hT]
+  have hsd : (start seq0 dts0 dur mTS).segDur mTS = dur := by
+    unfold Start.segDur; rw [(start_dur seq0 dts0 dur mTS).1, (start_dur seq0 dts0 dur mTS).2, Nat.mul_div_cancel _ hT]
+  rw [hsd]
+  have hne : dur ≠ 0 := by omega
+  simp only [hne, if_false]
+  have : ((firstIdx dts0 dur + j) * dur + dur / 2) / dur = firstIdx dts0 dur + j := by
+    rw [Nat.mul_comm, Nat.mul_add_div hd]
+    have : dur / 2 / dur = 0 := Nat.div_eq_of_lt (by omega)
+    omega
+  rw [this]
+
+/-- **Every other track follows the nearest grid point**: an upload whose shifted time lies within half a segment
+duration of `k·segDur` (before or after — audio cut at frame boundaries starts a little early or late) gets number
+`k − startNr`, the number of the master segment it belongs to. -/
+theorem c17_track_number (s : Start) (startNr inTime tsIn k : Nat) (hsd : 0 < s.segDur tsIn)
+    (hlo : k * s.segDur tsIn ≤ s.outTime inTime tsIn + s.segDur tsIn / 2)
+    (hhi : s.outTime inTime tsIn + s.segDur tsIn / 2 < (k + 1) * s.segDur tsIn) :
+    s.renumber startNr inTime tsIn =
+      some ((k % 4294967296 + 4294967296 - startNr % 4294967296) % 4294967296, s.outTime inTime tsIn) := by
+  unfold Start.renumber
+  have hne : s.segDur tsIn ≠ 0 := by omega
+  simp only [hne, if_false]
+  have : (s.outTime inTime tsIn + s.segDur tsIn / 2) / s.segDur tsIn = k := by
+    apply Nat.div_eq_of_lt_le
+    · exact hlo
+    · exact hhi
+  rw [this]
+
+/-- an upload that starts *before* its grid point by less than half a segment is not counted to the previous number
+(the floor a careless rewrite would take) -/
+theorem c17_early_start_same_number (s : Start) (startNr inTime tsIn k e : Nat) (hsd : 0 < s.segDur tsIn)
+    (ht : s.outTime inTime tsIn + e = k * s.segDur tsIn) (he : e ≤ s.segDur tsIn / 2) :
+    s.renumber startNr inTime tsIn =
+      some ((k % 4294967296 + 4294967296 - startNr % 4294967296) % 4294967296, s.outTime inTime tsIn) := by
+  apply c17_track_number s startNr inTime tsIn k hsd
+  · omega
+  · have : (k + 1) * s.segDur tsIn = k * s.segDur tsIn + s.segDur tsIn := by rw [Nat.add_mul, Nat.one_mul]
+    have h2 : s.segDur tsIn / 2 < s.segDur tsIn := Nat.div_lt_self hsd (by decide)
+    omega
+
+/-- non-vacuity: 2 s segments at 90 kHz, first master segment number 8090 at 10 s + 0.5 s: index 6, time shift 1.5 s;
+audio (48 kHz) of the next round starting one AAC frame early is numbered with it -/
+example : start 8090 945000 180000 90000 = ⟨180000, 90000, -8085 + 1, 135000⟩ := by decide
+example : (start 8090 945000 180000 90000).renumber 0 (945000 + 180000) 90000 = some (7, 1260000) := by decide
+example : (start 8090 945000 180000 90000).renumber 0 (504000 + 96000 - 1024) 48000 = some (7, 670976) := by decide
+
+end Renum
